@@ -5,6 +5,7 @@ S2C  the same states emitted as (table code, query, verdict, names, types, rows)
 C2S  random larger tables and random queries of the family executed on the real code, logged, judged by TLC
      (Trace_Select: Compile + Exec of the specification)
 """
+import copy
 import json
 import os
 
@@ -309,6 +310,14 @@ class RandomQueries:
                     q['group'] = [{'k': 'idx', 'i': pos['g%d' % i]} for i in range(len(keys))]
                 elif style == 'name':
                     q['group'] = [{'k': 'expr', 'e': self.col('g%d' % i)} for i in range(len(keys))]
+            if q['group'] and style != 'hidden' and r.random() < 0.2:          # the same target named twice
+                k = r.randrange(len(q['group']))
+                pos_ = {t['as']: i + 1 for i, t in enumerate(q['targets'])}
+                names_ = [t['as'] for t in q['targets'] if t['as'].startswith('g')]
+                if k < len(names_):
+                    dup = r.choice([{'k': 'idx', 'i': pos_[names_[k]]}, {'k': 'expr', 'e': self.col(names_[k])}, {'k': 'expr', 'e': keys[int(names_[k][1:])]}])
+                    q['group'] = q['group'][:r.randint(0, len(q['group']))] + [dup] + q['group']
+                    q['group'] = q['group'] if r.random() < 0.5 else q['group'][1:] + q['group'][:1]
             if q['group'] and r.random() < 0.35:
                 q['having'] = r.choice([{'k': 'bin', 'op': 'gt', 'a': {'k': 'agg', 'f': 'count', 'a': {'k': 'star'}}, 'b': self.const_int(1)},
                                         {'k': 'agg', 'f': 'sum', 'a': self.col('v')},
@@ -417,23 +426,45 @@ def strip_private(q):
     q.setdefault('star', False)
 
 
+def inventory_form(q):
+    """the statement with sum / first / last / count over column v (as whole targets) taken over the inventory column vi instead;
+    None when there is no such target"""
+    q2 = copy.deepcopy(q)
+    hit = False
+    for t in q2['targets']:
+        e = t['e']
+        if e.get('k') == 'agg' and e['f'] in ('sum', 'first', 'last', 'count') and isinstance(e.get('a'), dict) and e['a'] == {'k': 'col', 'n': 'v'}:
+            e['a'] = {'k': 'col', 'n': 'vi'}
+            hit = True
+    return q2 if hit else None
+
+
 def record_and_validate(ctx, family, ncases, maxrows, extra_judge=None):
     gen = RandomQueries(ctx.rng)
     path = ctx.path('select_%s.ndjson' % family)
     n = 0
     cid = 0
     nfrom = [0]
+    ninv = [0]
     with open(path, 'w') as f:
         while cid < ncases:
             rows = gen.table(ctx.rng.choice([0, 1, 2, 3, 5, 8, 13, 21, maxrows]))
             pyrows = [tuple(bql.to_py(r[c]) for c, _ in COLS) for r in rows]
-            conn = ht.connection(ht.HarnessTable('g', COLS, pyrows))
+            cols = COLS
+            if family == 'group':
+                # column v once more as stored Inventory objects (vi): aggregates over it are the int aggregates under the projection
+                from beancount.core import inventory as _inventory
+                cols = COLS + [('vi', _inventory.Inventory)]
+                pyrows = [r + (bql.int_as_inventory(r[2]),) for r in pyrows]
+            conn = ht.connection(ht.HarnessTable('g', cols, pyrows))
             for _ in range(12):
                 cid += 1
                 q = gen.query(family)
                 strip_private(q)
                 try:
-                    stmt = selectq.query_ast(q, 'g')
+                    qreal = inventory_form(q) if family == 'group' and ctx.rng.random() < 0.4 else None
+                    ninv[0] += qreal is not None
+                    stmt = selectq.query_ast(qreal or q, 'g')
                     w = q['where']
                     if family == 'plain' and isinstance(w, dict) and w.get('k') == 'and' and len(w['args']) == 2 and ctx.rng.random() < 0.6:
                         # the FROM expression is AND-ed in front of WHERE: submit  FROM <a> WHERE <b>  for  WHERE a AND b
@@ -452,7 +483,7 @@ def record_and_validate(ctx, family, ncases, maxrows, extra_judge=None):
                     ev['out'] = [[['exc', 0, 1, type(desc).__name__]]]
                 elif status == 'ok':
                     ev['names'] = [c.name for c in desc]
-                    ev['types'] = [([k for k, v in selectq.TYPEMAP.items() if v is c.datatype] or [c.datatype.__name__])[0] for c in desc]
+                    ev['types'] = [([k for k, v in selectq.TYPEMAP.items() if v is c.datatype] or [{'Inventory': 'int'}.get(c.datatype.__name__, c.datatype.__name__)])[0] for c in desc]
                     ev['out'] = selectq.proj_rows(out)
                     if any(v[0] == 'ood' for r in ev['out'] for v in r):
                         ctx.skipped += 1
@@ -485,7 +516,7 @@ def record_and_validate(ctx, family, ncases, maxrows, extra_judge=None):
     if res.post_failed or res.depth - 1 != n:
         raise MachineryError('Trace_Select did not consume the trace: depth %d, lines %d, errors %s' % (res.depth, n, res.errors[:2]))
     ctx.traces += n - nrej
-    ctx.leg('C2S', select_lines=n, select_rejected=nrej, family=family, via_from_expression=nfrom[0])
+    ctx.leg('C2S', select_lines=n, select_rejected=nrej, family=family, via_from_expression=nfrom[0], inventory_realisation=ninv[0])
     return n
 
 
